@@ -127,7 +127,22 @@ func (st *State) call(f *Frame, ins ssa.Instruction, cc *ssa.CallCommon, opts *c
 		return nil
 	}
 	if st.eng.isPureFn(callee) {
-		setResult(st.freshResult(callee.Name(), resT))
+		res := st.freshResult(callee.Name(), resT)
+		if st.eng.nonNilValueFn(callee) {
+			rs := res.Tuple
+			if rs == nil && res.Term != "" {
+				rs = []Value{res}
+			}
+			for _, r := range rs {
+				switch r.S {
+				case SRef:
+					st.assume(not(eq(r.Term, nilRef)))
+				case SIface:
+					st.assume(not(eq(app("i_tag", r.Term), "0")))
+				}
+			}
+		}
+		setResult(res)
 		return nil
 	}
 	// inline module functions without a contract
